@@ -117,18 +117,22 @@ theorem C32_apply_frame (st : St) (k : Nat) :
 /-- every request and every background step keeps the invariant (CreateSubscription below the wrap) -/
 theorem C32_subinv_step (st : St) (op : Op) (hinv : SubInv st)
     (hw : ∀ s, op = .createSub s → st.subCtr + 1 < 4294967296) : SubInv (step st op).2 := by
+  unfold step
+  by_cases h0 : op.session = some 0
+  · simpa [h0] using hinv
+  rw [if_neg h0]
   cases op with
   | createSub s => exact (C32_sub_id_fresh st s hinv (hw s rfl)).2.2.2
   | deleteSubs s ids =>
     refine ⟨hinv.1, ?_⟩
     intro id h
-    simp only [step, deleteSubs, List.mem_append] at h
+    simp only [deleteSubs, List.mem_append] at h
     rcases h with h | h
     · exact hinv.2 id h
     · obtain ⟨o, ho, _⟩ := deleteSubsLoop_spawned st.subs s ids id h
       exact hinv.1 id (List.mem_map.2 ⟨(id, o), lookupSub_mem ho, rfl⟩)
   | apply k =>
-    simp only [step]
+    simp only []
     cases hp : st.pending[k]? with
     | none => rw [applyDelete_none st k hp]; exact hinv
     | some id =>
@@ -154,8 +158,8 @@ theorem C32_subinv_step (st : St) (op : Op) (hinv : SubInv st)
       | none => simp
       | some o => simp only []; split <;> (try split) <;> simp
     refine ⟨?_, ?_⟩
-    · intro id h; simp only [step, liveSubIds, hsame.1, hsame.2.2] at h ⊢; exact hinv.1 id h
-    · intro id h; simp only [step, hsame.2.1, hsame.2.2] at h ⊢; exact hinv.2 id h
+    · intro id h; simp only [liveSubIds, hsame.1, hsame.2.2] at h ⊢; exact hinv.1 id h
+    · intro id h; simp only [hsame.2.1, hsame.2.2] at h ⊢; exact hinv.2 id h
   | setMode s m ids => exact hinv
   | deleteItems s ids => exact hinv
 
